@@ -440,4 +440,63 @@ def racyFns (F : Facts) (ops : List Step) : List String :=
 
 def mayRace (F : Facts) (ops : List Step) : Bool := !(racyFns F ops).isEmpty
 
+/-! ## objects that a function writes but did not create (deep round 3; facts of `footprint_c20heap.go`) -/
+
+/-- a package-level variable with the KIND of value it holds: `ptr` / `slice` / `map` = a shared memory cell that whoever
+    obtains the value can write through; `func` / `value` / `ext` (result of a function outside the scanned packages,
+    e.g. `errors.New`) / `named` = nothing of the library can be written through it.  `ty` = pointee / element type. -/
+structure SharedCell where
+  name : String
+  kind : String
+  ty : String
+  deriving DecidableEq, Repr
+
+/-- a write into an object that the writing function did not create: `via` says how it got it (`param:<i>` = handed
+    through from parameter i / an errors.As target in its chain, `recv`, `foreign:result:<callee>`), `ty` its static
+    pointee type -/
+structure ForeignWrite where
+  file : String
+  fn : String
+  line : Nat
+  lhs : String
+  via : String
+  ty : String
+  path : List String
+  op : Op
+  deriving DecidableEq, Repr
+
+structure HeapFacts where
+  cells : List SharedCell
+  /-- (function, result index, package-level cell the result may BE), closed over the call graph -/
+  handsOut : List (String × Nat × String)
+  writes : List ForeignWrite
+  /-- functions that return a function literal (handler / option / issuer factories) -/
+  factories : List String
+
+def SharedCell.writable (c : SharedCell) : Bool := c.kind == "ptr" || c.kind == "slice" || c.kind == "map"
+
+def HeapFacts.kindOf (H : HeapFacts) (g : String) : String :=
+  match H.cells.find? fun c => c.name == g with
+  | some c => c.kind
+  | none => ""
+
+/-- may-alias by type: a foreign write of pointee type `T` may hit every package-level POINTER cell whose pointee type is
+    `T` (error values travel through `error` interfaces, function-typed variables and `errors.As`) -/
+def heapHits (H : HeapFacts) : List (String × Cell) :=
+  H.writes.flatMap fun w =>
+    (H.cells.filter fun c => c.kind == "ptr" && c.ty != "" && c.ty == w.ty).map fun c => (w.fn, Cell.global c.name w.path)
+
+/-- results that are a package-level cell one can write through -/
+def handedOutWritable (H : HeapFacts) : List (String × String) :=
+  (H.handsOut.filter fun h => (H.kindOf h.2.2 == "ptr" || H.kindOf h.2.2 == "slice" || H.kindOf h.2.2 == "map")).map fun h => (h.1, h.2.2)
+
+def Root.isCaptured : Root → Bool
+  | .captured .. => true
+  | _ => false
+
+/-- the write sites inside returned closures that target a variable of the function that made the closure (or something
+    reached from it: the spare capacity of a slice built once per factory call) -/
+def closureSites (F : Facts) : List (String × String) :=
+  (F.sites.filter fun s => s.root.isCaptured).map fun s => (s.fn, s.lhs)
+
 end Footprint
